@@ -3,20 +3,6 @@ from pyvc.spec import REG as R, Raise, Clause
 from . import node, c13  # noqa
 from .node import CONNECTING, CONNECTED, READY, READY_WAITING_DWA, DISCONNECTING, CLOSING, CLOSED, R_CERREJ as R_CER_REJECTED
 
-R.model("PeerConnection", fields={"g_handled": "Seq[Message]"})
-
-
-@R.specfn("call_opaque_handler")
-def _call_handler(ex, st, f, args, kwargs, k, where):
-    """conn.message_handler(conn, msg): every invocation is logged (ghost); the handler (Node._receive_message,
-    verified separately) raises nothing"""
-    from pyvc.smt import seq_concat, seq_unit
-    conn, msg = args
-    log = ex.read_field(st, conn, "g_handled")
-    st = ex.write_field(st, conn, "g_handled", type(log)(seq_concat(log.t, seq_unit(msg.t)), log.elem))
-    return k(st, __import__("pyvc.values", fromlist=["VNone"]).VNone)
-
-
 R.macro("ce_expected", ["c", "m"],
         "m.header.command_code == 257 and ite(c._direction == 1, is_req(m), ite(c._direction == 2, not is_req(m), True))")
 R.contract("PeerConnection.__dispatch_message#gate", params={"self": "PeerConnection", "msg": "Message"},
